@@ -287,6 +287,29 @@ func c15ByteSubst(ss []seed, stride int, configs []int) mc.Harness {
 	}
 }
 
+// c15Trees: the CR3 tree generator of C11 (well-formed trees with unusual but honest shapes:
+// degenerate children, many ftyp brands, unknown boxes, 64-bit sizes, payload size menus).
+func c15Trees(configs []int) mc.Harness {
+	var cr3 []int
+	for ei := range entryPoints {
+		if entryPoints[ei].accepts("cr3") || ei == 0 {
+			cr3 = append(cr3, ei)
+		}
+	}
+	return func(x *mc.Exec) {
+		t, what := c11Build(x, false)
+		sigs := map[string]bool{}
+		n := 0
+		for _, ei := range cr3 {
+			n += c15Judge(x, sigs, &entryPoints[ei], t.doc.B, "CR3 tree with deviations "+x.DevLabels()+" "+what, configs)
+		}
+		x.Bulk = int64(n) - 1
+		x.InputID = hashBytes(t.doc.B)
+		x.Outcome = fmt.Sprint(len(sigs))
+		x.Trivial = x.Cost() == 0
+	}
+}
+
 func init() {
 	register(&mc.Check{Property: "C15",
 		Spaces: func(tier string) []mc.Space {
@@ -314,6 +337,8 @@ func init() {
 				{Name: "large-payload-malformations", H: c15Malformations(bigSeeds(), 1, []int{0, 12}), Bound: 1, Isolate: true,
 					Rule: "the large-payload seeds x every single-field malformation x {default, trace, error}"},
 			}
+			sp = append(sp, mc.Space{Name: "cr3-trees", H: c15Trees(mcfg), Bound: mb, Isolate: true,
+				Rule: "the CR3 box-tree generator of C11 (payload size menus, skeleton variants, unknown boxes, 64-bit sizes, many ftyp brands, metadata children with content too short for their type; all sizes honest) x both byte orders x Decode, DecodeCR3, PreviewCR3, isobmff.Reader x the configuration sweep"})
 			return sp
 		},
 		Assumptions: []string{
